@@ -791,7 +791,10 @@ impl C11 {
         };
         let elapsed = t0.elapsed();
         let seen = printer.stop();
-        rep.count("tierB.connections", seen.len() as u64);
+        if case.cfg.timeout_ms != Some(0) {
+            // (with a zero time-out it is a matter of real timing whether the client gets as far as connecting)
+            rep.count("tierB.connections", seen.len() as u64);
+        }
         rep.count(if is_async { "tierB.async_client_runs" } else { "tierB.blocking_client_runs" }, 1);
         let stalled = case.scripts.iter().any(|s| matches!(s.fault, Some(RespFault { kind: RespFaultKind::Stall, .. })));
         if stalled {
